@@ -105,6 +105,89 @@ CHECKS.update({
         design_ref="6/C18"),
 })
 
+CHECKS.update({
+    "C02": dict(
+        text="Lean: C02.and_sound / or_sound / isEmpty_sound / isAny_sound / rewriting_sound - for EVERY fuel (whether or not "
+             "the fixpoint loops ran to completion), every environment binding the variables and all markers over atoms of the "
+             "well-defined classes, `&`/`|` are satisfied exactly when both/either operand is; proved through the whole engine "
+             "(MultiMarker.of / MarkerUnion.of fixpoints, union_simplify / intersect_simplify, cnf/dnf, least-complexity choice "
+             "in union()) on top of the single-marker layer (string case table from C19, grouped ==/!= atoms, extra, set-valued "
+             "extras). Facts about Python-version atoms enter as named hypotheses (FromSpecOk, PyMergeOk, Coherent; C11 proves "
+             "Coherent for variable-on-the-left atoms) and are decided differentially. The model is compared structurally with "
+             "the real classes on the exhaustive single-layer pool grid and on random marker pairs; evaluate() of every result "
+             "is judged against the operands on literal-derived environments.",
+        technique="Lean 4 proof (engine induction for every fuel) over a hand-written model + structural differential correspondence",
+        design_ref="6/C02"),
+    "C03": dict(
+        text="Lean: C03.build_sound - the tree parse_marker builds from packaging's parsed list (operand reflection, `and` folded "
+             "through &, `or` groups through MarkerUnion.of, i.e. through all parse-time rewriting) is satisfied exactly when "
+             "the reference any(all(group)) evaluation of that list is, for every list, fuel and environment. That one atom "
+             "evaluates as packaging evaluates it is NOT proved: it is decided by running parse_marker(text).evaluate(env) "
+             "against packaging's Marker(text).evaluate(env) on generated texts x literal-derived environments, together with "
+             "the correspondence of Atom.eval with _evaluate.",
+        technique="Lean 4 proof of the tree-building step + differential testing of atom evaluation against packaging",
+        design_ref="6/C03"),
+    "C07": dict(
+        text="Lean: str_empty_any, reparse theorems of Properties/C07.lean (the token list the text of a marker denotes rebuilds "
+             "to a marker with the same meaning); the text-level printer/parser pair (packaging's marker parser) is outside the "
+             "model and is decided differentially: str(m) of every reachable result is re-parsed by parse_marker and by "
+             "packaging, compared with the model's str and judged by evaluate() on literal-derived environments.",
+        technique="Lean 4 partial proof (token level) + differential round-trip testing",
+        design_ref="6/C07"),
+    "C10": dict(
+        text="Lean: C10.call_ok / history_transparent / probe_independent - in a model where every atom carries the cached "
+             "specifier the code would compute (WF), any history of prior calls leaves later results unchanged; "
+             "not_transparent_without_wf shows the hypothesis is what the caches must guarantee. The implementation is checked "
+             "against that: each expression is evaluated cold (fresh subprocess), warm (after unrelated histories sharing "
+             "atoms) and in twin order; results are compared structurally with each other and with the cache-free model.",
+        technique="Lean 4 proof over a cache-free model + differential warm/cold/twin-history correspondence",
+        design_ref="6/C10"),
+    "C11": dict(
+        text="Lean: C11.coherent_plain / coherent_clean - for variable-on-the-left comparison, ~= and wildcard atoms on "
+             "python_version / python_full_version / platform_release, the specifier view admits the environment's (final) "
+             "version exactly when _evaluate is true (through C04's leaf theorem for every operator and C01); lexOne_of_clean "
+             "discharges the character-level lexing hypothesis for values without `,`, `|`, blanks. from_specifier (specifier "
+             "-> atom), in/not in lists and literal-on-the-left atoms are decided differentially: every atom x interpreter "
+             "version grid compares `v in marker.specifier` with evaluate(), and from_specifier output with the specifier.",
+        technique="Lean 4 proof (atom -> specifier direction) + exhaustive-grid differential testing of both directions",
+        design_ref="6/C11"),
+    "C12": dict(
+        text="Lean: C12.only_mentions / only_implied / only_same / exclude_mentions / exclude_implied / exclude_same_partial for "
+             "every fuel and marker over good atoms (the variable-tracking single-layer invariant singleSound_names carried "
+             "through the engine induction); exclude_same needs `NoVanish` (no conjunct re-normalises to Empty), which holds of "
+             "markers in normal form - exclude_same_needs_noVanish is the counterexample on a constructor-built marker, replayed "
+             "on the implementation. Differential: only()/exclude()/without_extras() on random markers x variable subsets "
+             "(and constructor-built, not-in-normal-form trees) compared structurally with the model; mentions/implication/"
+             "identity judged on the real results.",
+        technique="Lean 4 proof + structural differential correspondence (incl. raw-constructor trees)",
+        design_ref="6/C12"),
+    "C13": dict(
+        text="Lean: C13.spec_refl / spec_symm / spec_trans / spec_hash / spec_interchangeable (Python == on specifier objects is "
+             "an equivalence compatible with hash and with &,|,~), eq_of_beq / marker_equivalence / marker_congruence / "
+             "marker_eval_congr (== on markers is structural identity of the modelled fields, hence a congruence for every "
+             "operation and for evaluation). The implementation's __eq__/__hash__ are compared with the model's beq on pairs "
+             "of reachable objects, and equal objects are checked interchangeable as operands.",
+        technique="Lean 4 proof + differential correspondence of ==/hash",
+        design_ref="6/C13"),
+    "C14": dict(
+        text="Lean: markers - commutativity, associativity, idempotence, absorption, distributivity up to equivalence for every "
+             "fuel (corollaries of C02). Specifiers - every law proved as equality of admitted sets for all objects over any "
+             "linear preorder (C14.spec_*_mem); equality of the returned OBJECTS needs uniqueness of canonical forms, false for "
+             "the non-dense PEP 440 order (known finding G1), so it is decided by evaluating every law with the real == on "
+             "triples from the order-type grid and random reachable specifiers, and structurally against the model.",
+        technique="Lean 4 proof (laws up to meaning) + law evaluation on the implementation over exhaustive/random triples",
+        design_ref="6/C14"),
+    "C15": dict(
+        text="PARTIAL proof. Lean: flatten_nodup / mkMulti_nodup / mkUnion_nodup (constructors never keep equal children), "
+             "multiOf_exit / unionOfList_exit (of() returns Empty/Any, a member of its final list, or the constructor on a final "
+             "list of >= 2 entries without the absorbing element), and_neutral / or_neutral. The rest of the normal-form "
+             "invariant passes through fuel-bounded fixpoint loops for which we have no termination measure, so it is decided "
+             "by the normal-form oracle on every implementation result (parse, &, |, only, exclude, Empty/Any operands, "
+             "complement patterns, constructor-built trees) and their structural correspondence with the model.",
+        technique="Lean 4 partial proof (dedup + exit shapes) + normal-form oracle and structural correspondence on every result",
+        design_ref="6/C15"),
+})
+
 ALL = [f"C{n:02d}" for n in range(1, 20)]
 PENDING_REASON = "check under construction in this round; not claimed yet"
 
